@@ -238,6 +238,11 @@ def _stmt(p: Path, s: ast.stmt) -> list[Path]:
         return [p]
     if isinstance(s, ast.Pass):
         return [p]
+    if isinstance(s, ast.Delete):
+        # value: the deleted targets with the locals inlined
+        p.events.append(Event("other", s, [subst(t, p.env)
+                                           for t in s.targets], p.guards))
+        return [p]
     p.events.append(Event("other", s, None, p.guards))
     return [p]
 
